@@ -844,6 +844,7 @@ type loopParts struct {
 	extraHavoc []types.Object
 	postFn     func(st *State, k func(*State))
 	rangeIdx   types.Object
+	chanRecvLoop bool
 }
 
 func (ex *Exec) forStmt(st *State, s *ast.ForStmt, label string, k func(*State)) {
